@@ -725,15 +725,16 @@ namespace half_float {
 			unsigned int bits = static_cast<unsigned>(value<0) << 15;
 			if(!value)
 				return bits;
-			if(bits)
-				value = -value;
-			if(value > 0xFFFF)
+			// magnitude in the unsigned counterpart: negating the minimum of a signed type is not representable in T
+			typedef typename std::make_unsigned<T>::type U;
+			U abs = bits ? static_cast<U>(U(0)-static_cast<U>(value)) : static_cast<U>(value);
+			if(abs > 0xFFFF)
 				return overflow<R>(bits);
-			unsigned int m = static_cast<unsigned int>(value), exp = 24;
+			unsigned int m = static_cast<unsigned int>(abs), exp = 24;
 			for(; m<0x400; m<<=1,--exp) ;
 			for(; m>0x7FF; m>>=1,++exp) ;
 			bits |= (exp<<10) + m;
-			return (exp>24) ? rounded<R,false>(bits, (value>>(exp-25))&1, (((1<<(exp-25))-1)&value)!=0) : bits;
+			return (exp>24) ? rounded<R,false>(bits, (abs>>(exp-25))&1, (((1<<(exp-25))-1)&abs)!=0) : bits;
 		}
 
 		/// Convert half-precision to IEEE single-precision.
